@@ -383,7 +383,9 @@ def hist_case(rep, NP, MAXR, NSTEPS, FIRST, CRASH, prefix, shrink=False):
     from pySDC.implementations.hooks.log_step_size import LogStepSize
     from pySDC.implementations.problem_classes.TestEquation_0D import testequation0d
 
-    name = f'hist/NP{NP}/maxr{MAXR}/steps{NSTEPS}/first{int(FIRST)}/crash{int(CRASH)}' + ('/shrink' if shrink else '')
+    opts = shrink
+    shrink, NL_ = c09.hist_opts(opts)
+    name = f'hist/NP{NP}/maxr{MAXR}/steps{NSTEPS}/first{int(FIRST)}/crash{int(CRASH)}' + ('/shrink' if shrink else '') + (f'/NL{NL_}' if NL_ > 1 else '')
     Hooks.add_to_stats = _rec_add
     orig_eval = testequation0d.eval_f
 
@@ -413,11 +415,11 @@ def hist_case(rep, NP, MAXR, NSTEPS, FIRST, CRASH, prefix, shrink=False):
         CALLS.clear()
         CALLS.update({'add': [], 'iters': {}, 'work': {}, 'post': [], 'attempt': 0})
         r = c09.hist_run(c, NP, MAXR, NSTEPS, FIRST, CRASH, extra_hooks=[SetEst, LogEmbeddedErrorEstimatePostIter, LogWork, LogSDCIterations, LogSolution, LogStepSize, LogGlobalErrorPostStep,
-                                                                           LogLocalErrorPostStep, LogEmbeddedErrorEstimate, LogGlobalErrorPostIter, Count], shrink=shrink)
+                                                                           LogLocalErrorPostStep, LogEmbeddedErrorEstimate, LogGlobalErrorPostIter, Count], shrink=opts)
         bad = []
         if r['status'] == 'ok':
             bad = judge_stats(r, NP)
-            bad += [b for b in c09.hist_judge(r, NP, MAXR, NSTEPS, FIRST, CRASH, shrink=shrink) if b[0] == 'stats-recomputed-filter']
+            bad += [b for b in c09.hist_judge(r, NP, MAXR, NSTEPS, FIRST, CRASH, shrink=opts) if b[0] == 'stats-recomputed-filter']
         return dict(status=r['status'], bad=bad, log=[(l[0], l[1], l[5], l[6]) for l in r['log']], used=c.pos)
 
     try:
@@ -443,7 +445,7 @@ def hist_case(rep, NP, MAXR, NSTEPS, FIRST, CRASH, prefix, shrink=False):
             seen.add(key)
             rep.replayed += 1
             rep.violation(key, f'{name}: {b[0]}: {str(b[1])[:300]}; post_step log (slot, time, restart, restarts_in_a_row): {p.result["log"]}',
-                          {'task': ['hist', NP, MAXR, NSTEPS, FIRST, CRASH], 'shrink': shrink, 'decisions': p.decisions, 'violated': [(x[0], str(x[1])[:300]) for x in p.result['bad']],
+                          {'task': ['hist', NP, MAXR, NSTEPS, FIRST, CRASH], 'shrink': opts, 'decisions': p.decisions, 'violated': [(x[0], str(x[1])[:300]) for x in p.result['bad']],
                            'log': p.result['log']})
     rep.extra['histories_by_config'] = rep.extra.get('histories_by_config', []) + [{'config': name, 'prefix': prefix, 'paths': len(paths), 'violating': nbad}]
     if paths and len(rep.samples) < 8:
